@@ -1,0 +1,80 @@
+/*
+ * Atree - Scalable Arrays and Ordered Maps
+ *
+ * Copyright Flow Foundation
+ *
+ * Licensed under the Apache License, Version 2.0 (the "License");
+ * you may not use this file except in compliance with the License.
+ * You may obtain a copy of the License at
+ *
+ *   http://www.apache.org/licenses/LICENSE-2.0
+ *
+ * Unless required by applicable law or agreed to in writing, software
+ * distributed under the License is distributed on an "AS IS" BASIS,
+ * WITHOUT WARRANTIES OR CONDITIONS OF ANY KIND, either express or implied.
+ * See the License for the specific language governing permissions and
+ * limitations under the License.
+ */
+
+//go:build verif
+
+package atree
+
+//@ # ---------------------------------------------------------------- "holds references to other slabs" (C07: the has-pointers head flag)
+//@ # hasRef(st): answer of ContainerStorable.HasPointer for storable st (a function of the storable); a reference itself answers true.
+//@ # refIn(st): st is a container storable that holds (or is) a reference. eref / esref: the same for a map element / element list.
+//@ ghost hasRef : fn(st ref) bool
+//@ ghost eref : fn(el ref) bool
+//@ ghost esref : fn(es ref) bool
+//@ pred refIn(st Storable) = st != nil && is(st, ContainerStorable) && hasRef(st)
+
+//@ iface ContainerStorable.HasPointer() (r)
+//@   ensures r == hasRef(recv)
+//@   pure
+
+//@ func (v SlabIDStorable) HasPointer() (r)  serves C07
+//@   ensures r
+//@   pure
+
+//@ func hasPointer(storable) (r)  serves C07
+//@   ensures r == refIn(storable)
+//@   pure
+
+//@ iface element.hasPointer() (r)
+//@   ensures r == eref(recv)
+//@   pure
+
+//@ iface elements.hasPointer() (r)
+//@   ensures r == esref(recv)
+//@   pure
+
+//@ # a plain element holds a reference exactly when its key or its value does (large keys are stored by reference too)
+//@ func (e *singleElement) hasPointer() (r)  serves C07
+//@   ensures r == (refIn(e.key) || refIn(e.value))
+//@   pure
+
+//@ func (e *externalCollisionGroup) hasPointer() (r)  serves C07
+//@   ensures r
+//@   pure
+
+//@ func (e *inlineCollisionGroup) hasPointer() (r)  serves C07
+//@   requires e.elements != nil
+//@   ensures r == esref(e.elements)
+//@   pure
+
+//@ func (e *hkeyElements) hasPointer() (r)  serves C07
+//@   requires hkShape(e)
+//@   ensures r == (exists k :: 0 <= k && k < len(e.elems) && eref(e.elems[k]))
+//@   pure
+//@   loop 1: invariant forall k :: 0 <= k && k < i ==> !eref(e.elems[k])
+
+//@ func (e *singleElements) hasPointer() (r)  serves C07
+//@   requires wfSEs(e)
+//@   ensures r == (exists k :: 0 <= k && k < len(e.elems) && (refIn(e.elems[k].key) || refIn(e.elems[k].value)))
+//@   pure
+//@   loop 1: invariant forall k :: 0 <= k && k < i ==> !(refIn(e.elems[k].key) || refIn(e.elems[k].value))
+
+//@ func (m *MapDataSlab) HasPointer() (r)  serves C07
+//@   requires m.elements != nil
+//@   ensures r == esref(m.elements)
+//@   pure
